@@ -1,6 +1,7 @@
 import Driver.Proto
 import AdaptaVerif.Model.Frame
 import AdaptaVerif.Model.RouteCost
+import AdaptaVerif.Model.PinCone
 import AdaptaVerif.Num.Sqrt
 import AdaptaVerif.Gen.Comparators
 /-!
@@ -23,6 +24,7 @@ open Driver AdaptaVerif.Num
 open AdaptaVerif.Model.Geometry (Pt)
 open AdaptaVerif.Model.Frame
 open AdaptaVerif.Model.RouteCost
+open AdaptaVerif.Model.PinCone
 
 def tolRel : Rat := 1 / 1000000000
 
@@ -279,7 +281,62 @@ def grazesCorner (sc : Scene) (buf : Rat) (r : Route) : Bool :=
     [(⟨x0, y0⟩ : Pt), ⟨x0, y1⟩, ⟨x1, y0⟩, ⟨x1, y1⟩].any (fun k =>
       crossAt l.1 k l.2 == 0 && decide (dotAt l.1 k l.2 < 0))))
 
+/-- the frame of image `sym`: the symmetry followed by the translation of the `frame sym tx ty` line (none: no translation) -/
+def frameOf (c : Case) (sym : Nat) : Frame :=
+  match (c.get "frame").find? (fun l => l.size ≥ 3 && nat! l[0]! == sym) with
+  | some l => ⟨if sym == 8 then Sym.id else Sym.ofIdx sym, ⟨(parseNum l[1]!).getD 0, (parseNum l[2]!).getD 0⟩⟩
+  | none => Frame.ofSym (Sym.ofIdx sym)
+
+/-- a pin of a multi-pin class: `pin shape cls px py prop inside dirs excl cost` -/
+structure PinLine where
+  shape : Nat
+  cls : Nat
+  p : Pt
+  ins : Rat
+  dirs : Dirs
+  cost : Rat
+
+def pinsOf (c : Case) : Array PinLine :=
+  (c.get "pin").filterMap (fun l =>
+    if l.size < 9 then none else
+    match parseNum l[2]!, parseNum l[3]!, parseNum l[5]!, parseNum l[8]! with
+    | some x, some y, some ins, some cost => some ⟨nat! l[0]!, nat! l[1]!, ⟨x, y⟩, ins, Dirs.ofNat (nat! l[6]!), cost⟩
+    | _, _, _, _ => none)
+
+/-- (shape, class) of a connector whose source is a pin class -/
+def pinClassOf (c : Case) (ci : Nat) : Option (Nat × Nat) :=
+  ((c.get "ccls").find? (fun l => l.size ≥ 3 && nat! l[0]! == ci)).map (fun l => (nat! l[1]!, nat! l[2]!))
+
+/-- extra cost of the pin edge for the pin the path leaves through (`pinPt` = second vertex of the path), in frame `F`;
+    `none` if no pin of the class sits there.  Several pins at one position: the cheapest. -/
+def pinExtra (F : Frame) (rects : Array Rect) (pins : Array PinLine) (sh cls : Nat) (portPen : Rat) (pinPt target : Pt) : Option Rat :=
+  match rects[sh]? with
+  | none => none
+  | some R =>
+    let R' := F.actRect R
+    let x0 := minR R'.a.x R'.b.x
+    let x1 := maxR R'.a.x R'.b.x
+    let y0 := minR R'.a.y R'.b.y
+    let y1 := maxR R'.a.y R'.b.y
+    (pins.filter (fun q => q.shape == sh && q.cls == cls)).foldl (fun acc q =>
+      let pos := pinPosition x0 y0 x1 y1 (F.act q.p) q.ins
+      if pos == pinPt then
+        let e := pinEdgeExtra portPen q.cost (q.dirs.act F.sym) pos target
+        match acc with
+        | none => some e
+        | some a => some (if e < a then e else a)
+      else acc) none
+
 def checkRouteSymmetryParams (c : Case) (crossStage : Bool) : CaseResult := Id.run do
+  -- frames 1..7: the symmetries (followed by a translation if a `frame` line says so); frame 8, if present: a pure translation
+  let nFrames := if ((c.get "frame").any (fun l => l.size ≥ 1 && nat! l[0]! == 8)) then 9 else 8
+  let portPen := paramOf c 5 0
+  let rectsArr := (sceneOf c).toArray
+  let pinLines := pinsOf c
+  let mut pinned := 0
+  let mut pinSame := 0
+  let mut pinOther := 0
+  let mut pinPenalised := 0
   let buf := paramOf c 6 (numOf c "buf" 0)
   let mut grazing := 0
   let orth := flag c "orth" == 1
@@ -290,7 +347,7 @@ def checkRouteSymmetryParams (c : Case) (crossStage : Bool) : CaseResult := Id.r
   let conns := connsOf c
   let a := runVecs c "A"
   let aLabs := (a.filter (fun p => p.1.startsWith "route")).map (·.1)
-  for sym in [1:8] do
+  for sym in [1:nFrames] do
     let sLabs := ((c.get "S").filter (fun l => l.size ≥ 2 && nat! l[0]! == sym && l[1]!.startsWith "route")).map (fun l => l[1]!)
     if sLabs != aLabs then
       return { verdict := .specfail s!"route-symmetry-params: sym {sym} produced routes {sLabs.toList} but the original scene {aLabs.toList} (a library assertion failed in one frame only: {(c.get "libassert").toList.map (·.toList)})" }
@@ -315,15 +372,38 @@ def checkRouteSymmetryParams (c : Case) (crossStage : Bool) : CaseResult := Id.r
         if rev > 0 then alignedRev := alignedRev + 1
       if bends ra > 0 then bendy := bendy + 1
       if revEdges s d (if orth then pa.dropLast else pa) > 0 && rev > 0 then revCharged := revCharged + 1
-      for symI in [1:8] do
-        let sym := Sym.ofIdx symI
-        let F := Frame.ofSym sym
+      for symI in [1:nFrames] do
+        let F := frameOf c symI
         match (symVec c symI rl).bind nums?, (symVec c symI pl).bind nums? with
         | some br, some bp =>
           let rb := ptsOf br
           let pb := ptsOf bp
           compared := compared + 1
-          if rb.head? != some (F.act s) || rb.getLast? != some (F.act d) then
+          -- a source attached to a pin class: the route starts at the pin the search chose (second vertex of the path,
+          -- the first being the connector's dummy end vertex), whose edge costs `pinEdgeExtra` (Model/PinCone.lean)
+          let pc := pinClassOf c ci
+          let mut extraA : Rat := 0
+          let mut extraB : Rat := 0
+          if let some (sh, cls) := pc then
+            match pa, pb with
+            | sa :: pinA :: _, sb :: pinB :: _ =>
+              match pinExtra (Frame.ofSym Sym.id) rectsArr pinLines sh cls portPen pinA d,
+                    pinExtra F rectsArr pinLines sh cls portPen pinB (F.act d) with
+              | some ea, some eb =>
+                extraA := ea
+                extraB := eb
+                if symI == 1 then
+                  pinned := pinned + 1
+                  if ea ≥ portPen && portPen > 0 then pinPenalised := pinPenalised + 1
+                if F.act pinA == pinB then pinSame := pinSame + 1 else pinOther := pinOther + 1
+                if ra.head? != some pinA || rb.head? != some pinB || sb != F.act sa then
+                  return { verdict := .diverge s!"route-symmetry-params: sym {symI} {rl}: the route does not start at the pin the vertex path leaves through: routes {routeStr ra} / {routeStr rb}, paths {routeStr pa} / {routeStr pb}" }
+              | _, _ =>
+                return { verdict := .diverge s!"route-symmetry-params: sym {symI} {rl}: the vertex path does not leave through a pin of class {cls} of shape {sh}: paths {routeStr pa} / {routeStr pb}" }
+            | _, _ => pure ()
+          let s := if pc.isSome then (pa.head?.getD s) else s
+          let joinB := if pc.isSome then (pb.head? == none || rb.getLast? == some (F.act d)) else (rb.head? == some (F.act s) && rb.getLast? == some (F.act d))
+          if !joinB then
             return { verdict := .specfail s!"route-symmetry-params: sym {symI} {rl} does not join the image endpoints: {routeStr rb}" }
           let ctx := fun (_ : Unit) => s!"sym {symI} {rl} seg={ratToString seg} rev={ratToString rev} ang={ratToString ang} src={ptStr s} dst={ptStr d}: original route {routeStr ra} (obstacle-free={!(routeHits sc ra)}), vertex path {routeStr pa}; in the image scene route {routeStr rb} (obstacle-free={!(routeHits (F.actScene sc) rb)}), vertex path {routeStr pb}"
           if orth && isOrth ra != isOrth rb then
@@ -335,14 +415,15 @@ def checkRouteSymmetryParams (c : Case) (crossStage : Bool) : CaseResult := Id.r
           if pa.isEmpty then
             noPath := noPath + 1
             continue
-          for (r, p, which) in [(ra, pa, "original"), (rb, pb, "image")] do
+          for (r, p0, which) in [(ra, pa, "original"), (rb, pb, "image")] do
+            let p := if pc.isSome then p0.drop 1 else p0
             if p.head? != r.head? || p.getLast? != r.getLast? || bends p != bends r
                 || (orth && isOrth r && manhattanLen p != manhattanLen r) then
               return { verdict := .diverge s!"route-symmetry-params: the A* vertex path reported through the DebugHandler is not the route ({which} frame); {ctx ()}" }
           if orth then
             if !(isOrth ra) then continue
-            let ca := orthPathCost seg rev s d pa
-            let cb := orthPathCost seg rev (F.act s) (F.act d) pb
+            let ca := orthPathCost seg rev s d pa + extraA
+            let cb := orthPathCost seg rev (F.act s) (F.act d) pb + extraB
             if ca != cb then
               if crossStage then xDiffers := xDiffers + 1 else
               return { verdict := .specfail s!"route-symmetry-params: the cost of the route changes under the symmetry: {ratToString ca} (length {ratToString (manhattanLen pa)}, bends {bends pa}, charged reversing edges {revEdges s d pa.dropLast}) vs {ratToString cb} (length {ratToString (manhattanLen pb)}, bends {bends pb}, charged reversing edges {revEdges (F.act s) (F.act d) pb.dropLast}); {ctx ()}" }
@@ -351,6 +432,8 @@ def checkRouteSymmetryParams (c : Case) (crossStage : Bool) : CaseResult := Id.r
             -- polyline: the target itself is the only cost target, every edge is charged
             let qa := if chargeBends then penalties seg rev s d pa else rev * ((revEdges s d pa : Nat) : Rat)
             let qb := if chargeBends then penalties seg rev (F.act s) (F.act d) pb else rev * ((revEdges (F.act s) (F.act d) pb : Nat) : Rat)
+            let qa := qa + extraA
+            let qb := qb + extraB
             let loA := lenLo (sqLens pa) + qa
             let hiA := lenHi (sqLens pa) + qa + ang * angleFactorMax * ((bendVertices pa : Nat) : Rat)
             let loB := lenLo (sqLens pb) + qb
@@ -367,6 +450,7 @@ def checkRouteSymmetryParams (c : Case) (crossStage : Bool) : CaseResult := Id.r
                      ("sym.other.route.same.cost", otherRoute),
                      ("params.conns.aligned", aligned), ("params.conns.aligned.with.reverse-penalty", alignedRev),
                      ("params.conns.charged.reverse-penalty", revCharged), ("params.no-path", noPath),
+                     ("pins.connectors", pinned), ("pins.chosen.penalised", pinPenalised), ("pins.same.choice.up.to.frame", pinSame), ("pins.other.choice.same.cost", pinOther),
                      ("params.crossing-stage.cost-differs", xDiffers), ("finding.params.polyline-corner-grazing.cost-differs", grazing),
                      ("params.set", (c.get "param").size), ("params.options.set", (c.get "opt").size),
                      ("finding.lib-assert", libAsserts c)] }
